@@ -149,6 +149,8 @@ def fork_run(fn, arg, timeout=60.0):
         status = 0
         try:
             os.close(r)
+            # coverage.py (pedal's 'coverage' tracer style) saves a data file: give every child its own
+            os.environ['COVERAGE_FILE'] = '/tmp/verif-cov-%d' % os.getpid()
             # the child never talks to the terminal: stdin is empty (a real input() sees EOF) and fd 1 is
             # discarded (pedal's allow_real_io writes to the stdout object captured when pedal was imported)
             try:
@@ -200,6 +202,7 @@ def fork_run(fn, arg, timeout=60.0):
             if not b:
                 break
             chunks.append(b)
+    _cov = '/tmp/verif-cov-%d' % pid
     if timed_out:
         try:
             os.kill(pid, signal.SIGKILL)
@@ -208,6 +211,10 @@ def fork_run(fn, arg, timeout=60.0):
         os.waitpid(pid, 0)
         raise ChildFailure('timeout', 'child exceeded %.0fs wall clock' % timeout)
     _, st = os.waitpid(pid, 0)
+    try:
+        os.unlink(_cov)
+    except OSError:
+        pass
     data = b''.join(chunks)
     if not data:
         raise ChildFailure('died', 'child exited with status %r and no result' % (st,))
